@@ -256,7 +256,7 @@ def neg_correspondence(ck):
 # ----------------------------------------------------------------------------- directed cases of fixed / open findings
 def directed_cases(ck):
     """(family, case dict) list: the replays of the findings fixed since b55902d (a recurrence is a VIOLATION: fixed
-    findings classify nothing) and of the open finding C12-N12.  JSON documents are derived from what prqlc emits."""
+    findings classify nothing) and of the open finding C12-N14.  JSON documents are derived from what prqlc emits."""
     out = []
 
     def add(fam, entry, src, stack=64, **kw):
@@ -293,11 +293,11 @@ def directed_cases(ck):
     add("fixed:N7:backtick", "fmt", "from `" + "a" * 70000 + "`")
     add("fixed:N7:nested", "fmt", "module m {\n let x = (from t | select {" + "a" * 70000 + ", b})\n}")
     add("fixed:N7:wide-tuple", "fmt", "from t | select {" + ", ".join("c%d" % i for i in range(20000)) + "}")
-    # C12-N12 (open): tab.len() * indent overflows u16 at indent 32768 (64 MB stack; on 8 MB the stack goes first)
-    add("N12:module:32800", "fmt", "module m { " * 32800 + "let x = 1" + " }" * 32800 + "\nfrom t")
-    # C12-N13 (open): a row of a relation literal that is not a tuple
+    # C12-N12 (b4fb037): no replay -- the panic needed 32 768 levels of indentation, and with the fix that source formats to
+    # ~2 GB of output; the recurrence is an obligation (text pin of reset_line + arith row), see known_findings.d
+    # C12-N13 (e6f83f8): a row of a relation literal that is not a tuple
     for src in ("from [{a = 1}, 2]", "from [{a = 1}, \"x\"]", "from [{a = 1}, [2]]"):
-        add("N13:row", "compile", src, target="sql.generic")
+        add("fixed:N13", "compile", src, target="sql.generic")
     # C12-N14 (open): a lambda without parameters around a transform
     for src in ("from t | -> take 5", "from t | (-> derive {x = 1})", "from t | func -> append u"):
         add("N14:lambda", "compile", src, target="sql.generic")
